@@ -20,7 +20,12 @@ CONFIG = {
                 "enum default filter naming no option, or a QueryRequest on a method whose response is not exactly one array of objects, are kept as "
                 "'compiler must reject' classes), taken through compile -> image (direct and printed-.proto route) -> "
                 "structure.APIFromImage -> j5client.APIFromSource -> codec.ProtoToJSON -> export.BuildSwagger + json.Marshal in a "
-                "worker process, each stage under recover + timeout; 6 of 10 ops are kernels: producer path rewrite "
+                "worker process, each stage under recover + timeout; the result line of a package carries, beside the client-API summary, the "
+                "OpenAPI document read back from what each operation / component marshals to (path items in order, per operation verb, path, "
+                "parameters name@in, sorted body property names, response content, references into the package; references inside the "
+                "package's components), compared with the model's document (J5V/Pipe/SwaggerDoc.lean: buildClient + buildSwagger); "
+                "oracle on the real document: every $ref names a key of components.schemas, the in-path parameters are the path's :name segments; "
+                "6 of 10 ops are kernels: producer path rewrite "
                 "(j5convert.ConvertJ5File), consumer path rewrite and service / method / message naming tests "
                 "(structure.APIFromImage on hand-built descriptors, incl. malformed patterns), request split "
                 "(j5client.APIFromSource on a hand-built source API), schema walks on random graphs with cycles and unresolved "
@@ -31,13 +36,16 @@ CONFIG = {
     }],
     "trusted_base": [
         "Lean 4.33.0 kernel; axioms propext, Classical.choice, Quot.sound",
-        "hand-written models J5V/Pipe/{Path,Names,Split,Walk,Flatten,List,ListRequest,Client,Entity,Swagger,Service}.lean of internal/j5s/j5convert/service.go (path rewrite), "
+        "hand-written models J5V/Pipe/{Path,Names,Split,Walk,Flatten,List,ListRequest,Client,Entity,Swagger,SwaggerDoc,Service}.lean of internal/j5s/j5convert/service.go (path rewrite), "
         "internal/j5s/sourcewalk/{service,topic}.go (names), internal/structure/build_package.go (addStructure, buildMethod, "
         "buildTopicMethod), internal/j5client/{package_from_source,list,j5package}.go (methodFromSource, fillRequest, "
         "buildListRequest, collectPackageRefs), lib/j5schema/schema_walk.go, lib/j5schema/schema_set.go (assertRefsLink), "
         "lib/j5schema/root_schema.go (ClientProperties / OptionByName), lib/j5schema/schema_from_proto.go (buildEnum's prefix), "
         "internal/j5s/j5convert/{fields,summary}.go (enum default filter check), internal/export/convert.go (convertSchema's recursion), "
-        "internal/export/swagger.go (addMethod's path grouping), validated by the pipe.chain stream only",
+        "internal/export/swagger.go (addMethod: parameters, request body, response, path grouping), internal/export/convert.go (BuildSwagger, "
+        "ConvertRootSchema, convertObjectItem / convertOneofItem property loops with map semantics; references as node indices: the "
+        "`#/definitions/<package>.<schema>` string vs the `<package>.<key>` component key is tied by the source obligation C16_src_swagger_document "
+        "and by the stream's dangling-ref oracle), validated by the pipe.chain stream only",
         "J5V/Compile/Entity.lean (+ SourceDef) of the compile cluster: the services an entity generates (query service, command services); "
         "validated differentially there (C17) and here through every chain op with an entity",
         "J5V/Compile/Strcase.lean (strcase v0.3.0 ToSnake / ToCamel, path.Join / path.Clean) - owned by the compile cluster, "
@@ -47,14 +55,16 @@ CONFIG = {
         "j5.state.v1.StateMetadata / EventMetadata)",
         "extract/pipe.go (go/ast) and the Go harness internal/verifh/pipeh (generator, renderer to j5s text, oracle, canonical summary)",
         "image building (protodesc / protoprint + protocompile), schema reflection (lib/j5schema readers), JSON rendering "
-        "(internal/codec) and OpenAPI assembly (internal/export beyond convertSchema and the path grouping: operations, parameters, JSON marshalling) are NOT modelled: they are reached only by the stream's oracle "
-        "on generated packages (partial)",
+        "(internal/codec) and the JSON marshalling of the OpenAPI document (internal/export/schema.go MarshalJSON, scalar formats / rules / examples, "
+        "descriptions, required lists) are NOT modelled: they are reached only by the stream's oracle on generated packages (partial)",
     ],
     "assumptions": [
         "a package is 'valid' when the real compiler accepts it (recorded exception: an entity without events); packages the generator cannot produce (imports of other local packages, auth / method "
         "options, hand-written .proto files in the bundle, exported `any` member objects, entity summaries / query options, flatten on "
         "inline objects) are not covered",
         "nothing below j5.state.v1 Cause carries list rules (the driver leaves that subtree out of the built-in EventMetadata node)",
+        "`$ref` strings point at `#/definitions/…` while the schemas live under `components.schemas` (OpenAPI 3 tools resolve `#/components/schemas/…`): "
+        "'names a component' is taken as 'the text after #/definitions/ is a key of components.schemas' (observation, not in the statement of C16)",
         "BuildSwagger only takes the declared services of a package: entity-generated methods are absent from the OpenAPI document "
         "(observation, not in the statement of C16)",
         "protobuf's ByName lookup returns the unique field of that name (field names are unique in a linked descriptor)",
